@@ -1,6 +1,7 @@
 import ZapVerif.Proofs.EntryWF
 import ZapVerif.Proofs.Unesc
 import ZapVerif.Proofs.Num
+import ZapVerif.Gen.EntryMeta
 /-! # C02 — JSON output decodes to exactly the logged values, in order, at the right nesting -/
 namespace ZapVerif.C02
 open ZapVerif ZapVerif.Esc ZapVerif.Json ZapVerif.Enc ZapVerif.Entry
@@ -77,5 +78,27 @@ theorem sanitize_invalid_once (fuel : Nat) (b : UInt8) (r : Bytes) (hb : b ≥ 1
 /-- integers over the full 64-bit range (indeed every Int / Nat): the decimal text decodes to the value -/
 theorem int_recoverable (i : Int) : intOf (fmtInt i) = i := intOf_fmtInt i
 theorem uint_recoverable (n : Nat) : natOf (fmtNat n) = n := natOf_fmtNat n
+
+/-- the guard structure of `jsonEncoder.EncodeEntry` that `metaCalls` / `stackCalls` / `encodeEntry` mirror: level
+    (key ∧ encoder, no-op fall-back), time (key ∧ non-zero), name (name ∧ key, nil → full-name encoder, fall-back),
+    caller (defined; key ∧ encoder, fall-back; function key), message key, context bytes, stack (stack ∧ key) — in
+    this order.  `Gen.jsonEntryGuards` is re-read from zapcore/json_encoder.go on every run. -/
+def expectedJsonEntryGuards : List String := [
+  "0:final.LevelKey != \"\" && final.EncodeLevel != nil",
+  "1:cur == final.buf.Len()",
+  "0:final.TimeKey != \"\" && !ent.Time.IsZero()",
+  "0:ent.LoggerName != \"\" && final.NameKey != \"\"",
+  "1:nameEncoder == nil",
+  "1:cur == final.buf.Len()",
+  "0:ent.Caller.Defined",
+  "1:final.CallerKey != \"\" && final.EncodeCaller != nil",
+  "2:cur == final.buf.Len()",
+  "1:final.FunctionKey != \"\"",
+  "0:final.MessageKey != \"\"",
+  "0:enc.buf.Len() > 0",
+  "0:ent.Stack != \"\" && final.StacktraceKey != \"\""
+]
+
+theorem entry_guards_as_modelled : Gen.jsonEntryGuards = expectedJsonEntryGuards := by decide
 
 end ZapVerif.C02
